@@ -49,7 +49,7 @@ theorem extractAtomic_int32 (enc : Option Enc) (hk : int32Known enc = true) (bl 
   simp only [Bool.or_eq_true, decide_eq_true_eq] at hk
   have hk' : enc = none ∨ enc = some Enc.onec ∨ enc = some Enc.twoc ∨ enc = some Enc.sm := by
     rcases hk with ((h | h) | h) | h <;> simp [h]
-  simp [extractAtomic, bind, pure, run_bind, run_pure, run_getS, run_modifyS,
+  simp [extractAtomic, extractCore, convertRaw, bind, pure, run_ite, run_bind, run_pure, run_getS, run_modifyS, run_raise,
     BaseType.isNumeric, hb0, hnl, hk']
 
 /-- **C01/C02, atomic `A_INT32` objects.** For every legal encoding, bit length ≥ 1, bit position,
